@@ -315,7 +315,8 @@ class History:
         kept = [ft['name'] for ft in st['feats']]
         ev = {'ev': 'fit', 'obj': idx, 'outcome': outcome_code(exc), 'exc': exc_text(exc), 'st': st,
               'frame_raw': self._cells(o, Xb, kept), 'attrs_coherent': True, 'dropped_untouched': True,
-              'inputs_unchanged': True, 'method': method}
+              'inputs_unchanged': True, 'method': method,
+              'plain_categ_raw': [raw_column(o, f) in (self.meta.get('plain_categ') or []) for f in kept]}
         if exc is None:
             ev['attrs_coherent'] = attrs_coherent(o)
             if getattr(o, 'copy', True):
@@ -664,6 +665,9 @@ class Encoder:
                 e['attrs_coherent'] = bool(ev['attrs_coherent'])
                 e['dropped_untouched'] = bool(ev['dropped_untouched'])
                 e['inputs_unchanged'] = bool(ev['inputs_unchanged'])
+                mf = self.h.meta.get('min_freq') or []
+                e['mf'] = list(mf) if len(mf) == 2 else [0, 1]
+                e['plain_categ'] = [bool(b) for b in (ev.get('plain_categ_raw') or [False] * len(names))]
             elif ev['ev'] == 'transform':
                 fr = ev['frame_raw']
                 fnames = list(fr.keys())
